@@ -140,7 +140,7 @@ Section Rel.
       - pose proof (pr_import _ _ HP (s_ctx s1) (s_ctx s2) (t_globals t) Hc) as Hi.
         destruct (p_import P1 (s_ctx s1) (t_globals t)) as [a|ea], (p_import P2 (s_ctx s2) (t_globals t)) as [b|eb];
           try contradiction; [|exact Hi]. now apply Hmod. }
-    destruct x as [o|v|m v|v e|m b|tg il wc ig|t a wc|t names wc|k v vals body].
+    destruct x as [o|v|m v|v e|m b|tg il wc ig|t a wc|t names wc|k v vals body|t].
     - cbn [rrel]. now apply emit_rel.
     - cbn [rrel]. rewrite Hl, (resolve_rel _ _ (s_loc s2) v Hc). now apply emit_rel.
     - rewrite Hl, (resolve_rel _ _ (s_loc s2) m Hc).
@@ -171,6 +171,7 @@ Section Rel.
       injection Hm as _ <-. destruct m1; cbn [rrel]; try reflexivity. now apply from_fold_rel.
     - rewrite Hl. apply (scope_rel fu k v body (s_loc s2) vals (Ok s1) (Ok s2) Hb Hs).
       intros a Ha. injection Ha as <-. exact Hl.
+    - destruct (get_target ts t) as [tg|]; [now apply Hb|reflexivity].
   Qed.
 
   Definition stmt_ok (fu : nat) : Prop :=
